@@ -3,6 +3,7 @@ package main
 import (
 	"flag"
 	"fmt"
+	"io"
 	"math/rand"
 	"path/filepath"
 	"sync"
@@ -149,6 +150,31 @@ func init() {
 				}()
 			}
 			close(startAll)
+			// a sub-scope that is created, recorded on and closed while other goroutines ask for the same sub-scope:
+			// "test scopes and their metrics survive Close of a subscope and remain visible in later snapshots"
+			for trial := 0; trial < 40; trial++ {
+				name := fmt.Sprintf("c%d", trial)
+				var rw sync.WaitGroup
+				gate := make(chan struct{})
+				for k := 0; k < 4; k++ {
+					rw.Add(1)
+					go func() {
+						defer rw.Done()
+						<-gate
+						ts.SubScope(name)
+					}()
+				}
+				m := name + ".k"
+				log(M{"e": "call", "m": m, "n": 1})
+				close(gate)
+				child := ts.SubScope(name)
+				child.Counter("k").Inc(1)
+				if cl, ok := child.(io.Closer); ok {
+					cl.Close()
+				}
+				log(M{"e": "ret", "m": m, "n": 1})
+				rw.Wait()
+			}
 			wg.Wait()
 			takeSnap(999999) // everything has returned: what was called = what had returned
 			for _, e := range ev {
